@@ -20,7 +20,7 @@ def tlc_layouts(rep, cfgs, label):
     wd = os.path.join(common.WORK, "layout", label)
     shutil.rmtree(wd, ignore_errors=True)
     os.makedirs(os.path.join(wd, "out"))
-    slim = [{k: v for k, v in c.items() if k not in ("calls", "units", "boxlen", "nout", "ordering", "sink", "bound_keys", "hist", "levelmin")} for c in cfgs]
+    slim = [{k: v for k, v in c.items() if k not in ("calls", "units", "boxlen", "nout", "ordering", "sink", "sink_sc", "sink_order", "bound_keys", "hist", "levelmin")} for c in cfgs]
     with open(os.path.join(wd, "cfgs.json"), "w") as f:
         json.dump(slim, f)
     res = common.run_tlc("RamsesLayout", "RamsesLayout.cfg", env={"CFG_FILE": os.path.join(wd, "cfgs.json"), "OUT_DIR": os.path.join(wd, "out")},
@@ -442,7 +442,7 @@ def validate_read_traces(rep, cfgs, traces, label):
     """C -> S: recorded read logs validated by tla/TraceLayout.tla against the grammar of RamsesLayout"""
     wd = os.path.join(common.WORK, "layout", label + "-traces")
     os.makedirs(wd, exist_ok=True)
-    slim = [{k: v for k, v in c.items() if k not in ("calls", "units", "boxlen", "nout", "ordering", "sink", "bound_keys", "hist", "levelmin")} for c in cfgs]
+    slim = [{k: v for k, v in c.items() if k not in ("calls", "units", "boxlen", "nout", "ordering", "sink", "sink_sc", "sink_order", "bound_keys", "hist", "levelmin")} for c in cfgs]
     with open(os.path.join(wd, "cfgs.json"), "w") as f:
         json.dump(slim, f)
     # negative control: the last trace is a copy of the first with one offset shifted by 4 bytes
@@ -548,16 +548,18 @@ CLASS_CALLS = {
     "off_part": lambda c: c["kind"] == "off" and c["off"] == ["part"], "off_mesh": lambda c: c["kind"] == "off" and c["off"] == ["mesh"],
     "vars_mesh": lambda c: c["kind"] == "vars" and c["group"] == "mesh", "vars_part": lambda c: c["kind"] == "vars" and c["group"] == "part",
     "sort_mesh": lambda c: c["kind"] == "sort" and c["group"] == "mesh", "sort_part": lambda c: c["kind"] == "sort" and c["group"] == "part",
+    "sort_sink": lambda c: c["kind"] == "sort" and c["group"] == "sink",
 }
 
 
-def tlc_histories(rep, depth, haspart):
+def tlc_histories(rep, depth, haspart, hassink=False):
     os.makedirs(os.path.join(common.WORK, "cfg"), exist_ok=True)
-    cfg = os.path.join(common.WORK, "cfg", f"LoaderMachine-{depth}-{haspart}.cfg")
+    cfg = os.path.join(common.WORK, "cfg", f"LoaderMachine-{depth}-{haspart}-{hassink}.cfg")
     with open(cfg, "w") as f:
-        f.write(open(os.path.join(common.TLA, "cfg", "LoaderMachine.cfg")).read() + f"CONSTANTS Depth = {depth}  HasPart = {'TRUE' if haspart else 'FALSE'}\n")
+        f.write(open(os.path.join(common.TLA, "cfg", "LoaderMachine.cfg")).read()
+                + f"CONSTANTS Depth = {depth}  HasPart = {'TRUE' if haspart else 'FALSE'}  HasSink = {'TRUE' if hassink else 'FALSE'}\n")
     res = common.run_tlc("LoaderMachine", cfg, workers=4, timeout=900)
-    rep.tlc(res, f"histories-depth{depth}-part{haspart}")
+    rep.tlc(res, f"histories-depth{depth}-part{haspart}-sink{hassink}")
     return res.json_lines()
 
 
@@ -579,12 +581,21 @@ def run_history(args):
                         ds.load(**build_args(cfg, call, lay["S"]))
                         src = h["src"][step - 1]
                         # every group must equal Fresh(the call that produced it)
-                        present = sorted(g for g in ds.keys() if g != "sink")
+                        present = sorted(g for g in ds.keys() if g != "sink" or cfg.get("sink_sc"))
                         want = sorted(g for g, k in src.items() if k)
                         if present != want:
                             detail = f"after call {step}: groups expected {want} got {present}"
                             break
                         for g in want:
+                            if g == "sink":
+                                # file order unless the producing call asked for sorted sinks (every column ascends with the sink number)
+                                by = calls[src[g] - 1]
+                                rows = sorted(cfg["sink_order"]) if by["kind"] == "sort" and by["group"] == "sink" else cfg["sink_order"]
+                                dd = check_sink(cfg, cfg["sink_sc"], ds, rows)
+                                if dd:
+                                    detail = f"after call {step}: group sink differs from a fresh load of call {src[g]}: {dd}"
+                                    break
+                                continue
                             pc = None
                             if g == "part" and "position" in calls[src[g] - 1]["kind"]:
                                 pc = files_read_for_particles(cfg, ds) or lay["exp"][calls[src[g] - 1]["req"] - 1]["codecpus"]
@@ -620,12 +631,24 @@ def run_c15(rep, tier, seed):
     ncfg = 40 if tier == "quick" else 200
     cfgs = make_cfgs(tier, seed + 4, ncfg, family=False, n_hilbert3=ncfg)
     lays = tlc_layouts(rep, cfgs, "c15")
-    emitted = {True: tlc_histories(rep, depth, True), False: tlc_histories(rep, depth, False)}
+    # a sink table (rows not in ascending order) next to half of the outputs
+    sres = common.run_tlc("Sink", "Sink.cfg", workers=1, timeout=600)
+    scs = [sc for sc in sres.json_lines() if sc["exp"]["nsink"] >= 2]
+    for i, c in enumerate(cfgs):
+        if i % 2 == 0:
+            cand = [sc for sc in scs if sc["ndim"] == c["ndim"]]
+            sc = rng.choice(cand)
+            n = sc["exp"]["nsink"]
+            c["sink_sc"], c["sink_order"] = sc, ([1, 0] if n == 2 else [n - 1] + list(range(n - 1)))
+            c["sink"] = sink_csv(sc, c["sink_order"])
+            c["calls"].append({"req": 1, "kind": "sort", "group": "sink", "key": rng.choice(sorted(sc["exp"]["scalars"]))})
+    emitted = {(hp, hs): tlc_histories(rep, depth, hp, hs) for hp in (True, False) for hs in (True, False)}
     index = {hp: {json.dumps(r["h"]): r for r in recs} for hp, recs in emitted.items()}
     jobs = []
     per_cfg = 70 if tier == "quick" else 400
     for i, (c, lay) in enumerate(zip(cfgs, lays)):
-        recs = [r for r in emitted[c["haspart"]] if len(r["h"]) >= 2]
+        hk = (c["haspart"], bool(c.get("sink_sc")))
+        recs = [r for r in emitted[hk] if len(r["h"]) >= 2]
         chosen = rng.sample(recs, min(per_cfg, len(recs)))
         hists = []
         for r in chosen:
@@ -638,7 +661,7 @@ def run_c15(rep, tier, seed):
                 calls.append(rng.choice(cand))
             if not ok:
                 continue
-            srcs = [index[c["haspart"]][json.dumps(r["h"][:j])]["src"] for j in range(1, len(r["h"]) + 1)]
+            srcs = [index[hk][json.dumps(r["h"][:j])]["src"] for j in range(1, len(r["h"]) + 1)]
             hists.append({"classes": r["h"], "calls": calls, "src": srcs})
         jobs.append((i + 1, c, lay, hists))
     n = 0
@@ -672,15 +695,16 @@ def run_c04_loads(rep, tier, seed):
 
 # --------------------------------------------------------------------------- C14: particles and sinks
 
-def sink_csv(sc):
+def sink_csv(sc, rows=None):
+    """rows: the order in which the sinks are written (default: ascending in every column)"""
     e = sc["exp"]
     lines = [" # " + ",".join(c["name"] for c in e["cols"]), " # " + ",".join(c["cell"] for c in e["cols"])]
-    for r in range(e["nsink"]):
+    for r in (range(e["nsink"]) if rows is None else rows):
         lines.append(",".join(repr(float((r + 1) * 16 + k)) if c["name"] != "id" else str(r + 1) for k, c in enumerate(e["cols"])))
     return "\n".join(lines) + "\n"
 
 
-def check_sink(cfg, sc, ds):
+def check_sink(cfg, sc, ds, rows=None):
     import numpy as np
     from .units_map import cgs_of_sparse, dim_of_sparse, sparse_of_pint
     e = sc["exp"]
@@ -696,7 +720,7 @@ def check_sink(cfg, sc, ds):
 
     def check_col(name, arr):
         k, c = col[name]
-        want = [float((r + 1) * 16 + k) if name != "id" else float(r + 1) for r in range(e["nsink"])]
+        want = [float((r + 1) * 16 + k) if name != "id" else float(r + 1) for r in (range(e["nsink"]) if rows is None else rows)]
         u = c["unit"]
         sp = sparse_of_pint(arr.unit)
         vals = np.atleast_1d(arr.values).astype(float).tolist()
@@ -823,18 +847,18 @@ def apalache_inductive(rep):
     wd = os.path.join(common.WORK, "apalache")
     os.makedirs(wd, exist_ok=True)
     s = open(os.path.join(common.TLA, "LoaderMachine.tla")).read()
-    s = s.replace("CONSTANTS Depth, HasPart", "CONSTANTS\n  \\* @type: Int;\n  Depth,\n  \\* @type: Bool;\n  HasPart")
+    s = s.replace("CONSTANTS Depth, HasPart, HasSink", "CONSTANTS\n  \\* @type: Int;\n  Depth,\n  \\* @type: Bool;\n  HasPart,\n  \\* @type: Bool;\n  HasSink")
     a = s.index("VARIABLES src,")
     b = s.index("vars ==")
     s = s[:a] + "VARIABLES\n  \\* @type: Str -> Int;\n  src,\n  \\* @type: Str -> Int;\n  counted,\n  \\* @type: Seq(Str);\n  hist\n" + s[b:]
     s = s.replace("EXTENDS Integers, Sequences, FiniteSets, TLC, Json", "EXTENDS Integers, Sequences, FiniteSets, Apalache")
     s = "\n".join(l for l in s.splitlines() if not l.startswith("Emit =="))
-    s = s.replace("====", """CInit == Depth = 3 /\\ HasPart = TRUE
+    s = s.replace("====", """CInit == Depth = 3 /\\ HasPart = TRUE /\\ HasSink = TRUE
 TypeOK == /\\ DOMAIN src = Groups /\\ DOMAIN counted = {"ncells", "nparticles"} /\\ Len(hist) <= Depth
           /\\ \\A g \\in Groups : src[g] >= 0 /\\ src[g] <= Len(hist)
           /\\ \\A i \\in DOMAIN hist : hist[i] \\in Classes
 IndInv == TypeOK /\\ Attribution
-IndInit == hist = Gen(3) /\\ src = Gen(2) /\\ counted = Gen(2) /\\ IndInv
+IndInit == hist = Gen(3) /\\ src = Gen(3) /\\ counted = Gen(2) /\\ IndInv
 ====""")
     with open(os.path.join(wd, "LoaderMachine.tla"), "w") as f:
         f.write(s)
